@@ -75,6 +75,11 @@ func zzFamily(fam, j int, sym bool) []byte {
 			item = append(item, 0x01, 0x02, 0xA5, 0x00)
 		}
 		item = append(item, 0x01, 0x00)
+	case 9, 10, 11: // j nested single-element lists around an item that is refused: 9 declares more bytes than are left, 10 has an undefined format code, 11 an I4 item of 3 bytes
+		for i := 0; i < j; i++ {
+			item = append(item, 0x01, 0x01)
+		}
+		item = append(item, [][]byte{{0x21, 0x09, 1, 2}, {0x3D, 0x01, 0x00}, {0x71, 0x03, 1, 2, 3}}[fam-9]...)
 	case 8: // as 7 with a one-element leaf of a different format at each level (ASCII, binary, boolean, I2, U4, F4)
 		leaves := [][]byte{{0x41, 0x01, 'x'}, {0x21, 0x01, 0x07}, {0x25, 0x01, 0x01}, {0x69, 0x02, 0xff, 0xfe}, {0xB1, 0x04, 1, 2, 3, 4}, {0x91, 0x04, 0x3f, 0x80, 0, 0}}
 		for i := 0; i < j; i++ {
@@ -105,10 +110,8 @@ func ZZ_C07_growth() {
 			_, ok := Parse(in)
 			got[k] = rt.AllocTotal()
 			rt.AllocEnd()
-			rt.Assert(ok || fam == 6, "growth:family-member-decodes")
+			rt.Assert(ok == (fam < 9) || fam == 6, "growth:family-member-decodes")
 		}
-		rt.Observe("total-alloc-scale", got[0])
-		rt.Observe("total-alloc-2scale", got[1])
 		rt.Assert(got[1] <= 3*got[0]+1<<20, "alloc:growth-ratio")
 		rt.Reach("end")
 		return
@@ -120,10 +123,8 @@ func ZZ_C07_growth() {
 		_, ok := Parse(in)
 		tot[k] = rt.AllocTotal()
 		rt.AllocEnd()
-		rt.Assert(ok || fam == 6, "growth:family-member-decodes")
+		rt.Assert(ok == (fam < 9) || fam == 6, "growth:family-member-decodes")
 	}
-	rt.Observe("requested-bytes-j", tot[0])
-	rt.Observe("requested-bytes-2j", tot[1])
 	rt.Assert(2*tot[1] <= 5*tot[0]+512, "alloc:growth-ratio")
 	rt.Reach("end")
 }
